@@ -439,7 +439,7 @@ def model_parse(p, mode, ver, flags):
 def model_match(rx, s, mode):
     """True | False | None (undecided)"""
     for ch in s:
-        if ch not in SUBJ_SET:
+        if ch not in SUBJ_SET and not (ch.isascii() and ch.isprintable()):
             return None
     try:
         return rx.search(s) if mode == 'xpath' else rx.fullmatch(s)
@@ -651,8 +651,8 @@ def diagnose(rx, p, flags, ver, mode, s, want):
                 if node is not None and 'i' in fl:
                     return 'i-flag/category-escape-in-class' if class_has_category(node) \
                         else 'i-flag/class-algebra-before-case-folding'
-                if re.search(r'-\\[sSdDwWiIcCpP]', small.replace('\\\\', '')):
-                    return '%s/class/escape-after-hyphen' % verb
+                if '\\-\\' in small.replace('\\\\', ''):
+                    return '%s/class/escape-after-escaped-hyphen' % verb
                 sig = class_sig(node) if node is not None else 'unparsed'
                 return '%s/class/%s%s' % (verb, sig, tail)
             kind = atom.kind
@@ -667,6 +667,17 @@ def diagnose(rx, p, flags, ver, mode, s, want):
             feat = f
             break
     return '%s/%s/structure/%s%s' % (mode, verb, feat, ('/flags=' + rel) if rel else '')
+
+
+def x_reason(p, flags):
+    """under flag x: which of the two x-flag mechanisms can explain a disagreement, if any"""
+    if 'x' not in flags or 'q' in flags:
+        return None
+    if '#' in re.sub(r'\\.|\[[^\]]*\]', '', p):
+        return 'x-flag/hash-treated-as-comment'
+    if M.strip_x(p) != p:
+        return 'x-flag/whitespace-not-removed'
+    return None
 
 
 def norm_msg(msg):
@@ -698,7 +709,9 @@ def check_translate(case, out):
         out.obs = 'invalid (%s); engine %s' % (st[1], comp[0])
         if comp[0] == 'ok':
             reason = st[1]
-            if 'x' in flags and M.strip_x(p) != p and \
+            if 'x' in flags and '#' in re.sub(r'\\.|\[[^\]]*\]', '', p):
+                reason = 'x-flag/hash-treated-as-comment'
+            elif 'x' in flags and M.strip_x(p) != p and \
                     eng_compile(M.strip_x(p), flags.replace('x', ''), ver, mode)[0] != 'ok':
                 reason = 'x-flag/whitespace-not-removed'
             out.fail('C12/invalid-accepted/%s' % reason,
@@ -748,7 +761,8 @@ def check_translate(case, out):
                 continue
             keys.add(key)
             out.fail('C12/' + key, {'pattern': p, 'flags': flags, 'xsd_version': ver, 'mode': mode, 'subject': s,
-                                    'expected': exp, 'got': got, 'translated': comp[2][:120]})
+                                    'expected': exp, 'got': got,
+                                    'translated': comp[2][:120].encode('unicode_escape').decode('ascii')})
     out.dim('subject_comparisons', mode, ncmp)
     out.dim('answers', '+'.join(sorted(str(a) for a in answers)) or 'none')
     out.nontrivial = len(answers) == 2
@@ -801,7 +815,10 @@ def check_functions(case, out):
         out.obs = 'invalid pattern (%s): %s' % (st[1], {k: (v[0] if v[0] != 'err' else v[1]) for k, v in results.items()})
         for name, r in results.items():
             if r[0] == 'ok':
-                out.fail('C12/invalid-accepted/%s' % st[1], dict(ctx, function=name, expected='FORX0002', got='a result'))
+                xr = x_reason(p, flags)
+                if xr and fn_call('matches($s,$p,$f)', s, M.strip_x(p), flags.replace('x', ''))[0] == 'ok':
+                    xr = None
+                out.fail('C12/invalid-accepted/%s' % (xr or st[1]), dict(ctx, function=name, expected='FORX0002', got='a result'))
                 break
             if r[0] == 'err' and r[1] != 'FORX0002':
                 out.fail('C12/functions/invalid-pattern-error-code/%s/%s' % (name, r[1]), dict(ctx, expected='FORX0002'))
@@ -817,7 +834,7 @@ def check_functions(case, out):
         for name, r in results.items():
             if r[0] == 'err' and r[1] == 'FORX0002':
                 key = diagnose(rx, p, flags, '1.0', 'xpath', None, 'rejected') if 'q' not in flags \
-                    else 'functions/q-flag/valid-rejected'
+                    else ('functions/q-flag/with-x-flag' if 'x' in flags else 'functions/q-flag/valid-rejected')
                 out.fail('C12/' + key, dict(ctx, function=name, expected='valid pattern', got='FORX0002'))
                 break
         exp = model_match(rx, s, 'xpath')
@@ -830,7 +847,7 @@ def check_functions(case, out):
             out.dim('fn_matches_compared', exp)
             if got != exp:
                 if 'q' in flags:
-                    key = 'functions/q-flag/mismatch'
+                    key = 'functions/q-flag/with-x-flag' if 'x' in flags else 'functions/q-flag/mismatch'
                 else:
                     rx.unset_backref_used = unset_s
                     key = diagnose(rx, p, flags, '1.0', 'xpath', s, 'match')
@@ -842,13 +859,17 @@ def check_functions(case, out):
         out.dim('fn_zero_length', 'yes')
         for n in three:
             if results[n][0] == 'ok':
-                out.fail('C12/functions/FORX0003-missing%s' % ('/backref-to-unset-group' if unset_e else ''),
+                xr = x_reason(p, flags)
+                out.fail('C12/' + (xr + '/FORX0003-missing' if xr else
+                                   'functions/FORX0003-missing%s' % ('/backref-to-unset-group' if unset_e else '')),
                          dict(ctx, function=n, expected='FORX0003 (pattern matches the zero-length string)', got='a result'))
                 break
         out.obs = 'pattern matches the empty string: %s' % forx3
         return
     if empty is False and forx3:
-        out.fail('C12/functions/FORX0003-spurious', dict(ctx, functions=forx3, expected='a result'))
+        xr = x_reason(p, flags)
+        out.fail('C12/' + (xr + '/FORX0003-spurious' if xr else 'functions/FORX0003-spurious'),
+                 dict(ctx, functions=forx3, expected='a result'))
         return
     if forx3:
         if len(forx3) != 3 and all(results[n][0] in ('ok', 'err') for n in three):
@@ -877,9 +898,11 @@ def check_functions(case, out):
         return
     if rm[0] == 'ok' and bool(unwrap(rm[1])) != (nmatch > 0):
         out.fail('C12/functions/matches-vs-analyze-string', dict(ctx, matches=unwrap(rm[1]), match_elements=nmatch))
-    shape = 'plain'
     if rx is not None:
         shape = 'capturing-groups' if rx.ngroups else ('anchors' if 'anchor' in rx.features else 'plain')
+    else:
+        bare = re.sub(r'\\.|\[[^\]]*\]', '', p)
+        shape = 'capturing-groups' if re.search(r'\((?!\?)', bare) else ('anchors' if re.search(r'[$^]', bare) else 'plain')
     if rt[0] == 'ok':
         toks = rt[1] if isinstance(rt[1], list) else [rt[1]]
         expect = []
@@ -971,7 +994,7 @@ def check_case(kind, case):
     return out
 
 
-def _shrink_str(p, limit=24):
+def _shrink_str(p, limit=14):
     n = len(p)
     k = 0
     for size in (n // 2, n // 4, 3, 2, 1):
@@ -1024,6 +1047,24 @@ SEED_TRANSLATE = [
 ]
 
 
+SEED_TRANSLATE += [
+    # one witness per mechanism seen on the unchanged tree, so that the set of keys does not depend on the seed
+    ('[\\\\s]', '', 'xsd'), ('[\\-\\d]', '', 'xsd'), ('[ -\\-\\S]', '', 'xsd'), ('[a-\\n]', '', 'xsd'), ('[\\t-\\n]', '', 'xsd'),
+    ('[\\p{Ll}]', 'i', 'xpath'), ('[^9-a]', 'i', 'xpath'), ('[Aa-[a]]', 'i', 'xpath'), ('a#b', 'x', 'xpath'), ('a {2}', 'x', 'xpath'),
+    ('a{1, 2}', 'x', 'xpath'), ('a b', 'x', 'xpath'), ('\\ d', 'x', 'xpath'), ('\\_', '', 'xpath'), ('\\a', '', 'xsd'),
+    ('[\\q]', '', 'xsd'), ('[\\p]', '', 'xsd'), ('\\0', '', 'xpath'), ('[a-[b]c', '', 'xsd'), ('[a-[b]', '', 'xsd'),
+    ('\\q', '', 'xsd'), ('\\1(a)', '', 'xpath'), ('(a\\1)', '', 'xpath'), ('\\p{Is}', '', 'xsd'), ('a\\', '', 'xsd'),
+    ('\\2 #', 'x', 'xpath'), ('\\ 3', 'x', 'xpath'),
+]
+SEED_FUNCTIONS = [
+    ('1ab2ab', '(a)(b)', ''), ('1ab2', '(a)b', ''), ('aa', '^a', ''), ('abc', '(a(b)?c)', ''), ('abcd', '((a)(b))((c)(d))', ''),
+    ('1<2', '1', ''), ('a&b', 'b', ''), ('a\rb', 'b', ''), ('a\\b', '\\', 'q'), ('a b', 'a b', 'qx'), ('a.b', '.', 'q'),
+    ('\\$x', 'x', ''), ('b', '(a)|b\\1', ''), ('ab', '(a)|\\1', ''), ('abcd', '(ab)|(a)', ''), ('a', '#', 'x'), ('abc', 'b*', ''),
+    ('Mum', '([md])[aeiou]\\1', 'i'), ('abracadabra', 'bra', ''), ('abracadabra', 'a.*?a', ''), ('', 'a', ''),
+    ('The cat sat', '\\s+', ''), ('a1b22c', '\\d+', ''), ('+', '(()[\\C])', ''),
+]
+
+
 def run(h):
     r = h.rng
     if h.shard == 0:
@@ -1031,9 +1072,11 @@ def run(h):
             for ver in ('1.0', '1.1'):
                 h.case('translate', {'p': p, 'flags': flags, 'ver': ver, 'mode': mode,
                                      'subjects': g_subjects(h.sub_rng('seed', p, ver), p, mode, ver, flags)})
-    for _ in range(h.n(1500)):
+        for sj, p, flags in SEED_FUNCTIONS:
+            h.case('functions', {'s': sj, 'p': p, 'flags': flags})
+    for _ in range(h.n(1300)):
         h.case('translate', g_translate_case(r))
-    for _ in range(h.n(260)):
+    for _ in range(h.n(230)):
         h.case('functions', g_functions_case(r))
 
 
